@@ -87,7 +87,20 @@ type Module struct {
 	Extra      string     `json:"extra,omitempty"`
 	// SubIdents > 0: the last SubIdents identities are written in the submodule <name>-sub, which the module includes
 	SubIdents int `json:"subIdents,omitempty"`
-	root      *Node
+	// NS: the argument of the namespace statement; "" stands for urn:<name>, "-" for a module written without the statement
+	NS   string `json:"ns,omitempty"`
+	root *Node
+}
+
+// Namespace is the namespace the module's elements are in ("" when the module states none).
+func (m *Module) Namespace() string {
+	switch m.NS {
+	case "":
+		return "urn:" + m.Name
+	case "-":
+		return ""
+	}
+	return m.NS
 }
 
 // Root returns the synthetic root node whose children are the top-level nodes.
@@ -108,7 +121,11 @@ func b2s(b bool) string {
 // Yang renders the module.
 func (m *Module) Yang() string {
 	var b strings.Builder
-	fmt.Fprintf(&b, "module %s {\n namespace \"urn:%s\";\n prefix %s;\n", m.Name, m.Name, m.Name)
+	fmt.Fprintf(&b, "module %s {\n", m.Name)
+	if m.NS != "-" {
+		fmt.Fprintf(&b, " namespace \"%s\";\n", m.Namespace())
+	}
+	fmt.Fprintf(&b, " prefix %s;\n", m.Name)
 	inMain := m.Identities
 	if m.SubIdents > 0 && m.SubIdents <= len(m.Identities) {
 		inMain = m.Identities[:len(m.Identities)-m.SubIdents]
